@@ -32,11 +32,31 @@ type frame struct {
 	facts   *fnFacts                // captured + mutated locals (recorded automatically), bound closures
 	alias   map[types.Object]string // local -> tracked name it aliases (spec.alias only)
 	inlined bool
-	lits    int  // depth of function literals inside this frame
-	defers  []ev // inlined frames: deferred Unlock/RUnlock/Done, replayed when the callee returns
 	// params: parameters of a followed callee / called literal that are bound to `&path` (or to a map / channel
 	// path) of the caller: inside the callee they ARE that path - `worker(&sum, &wg)` vs a closure capturing sum, wg
 	params map[types.Object]pbind
+}
+
+type body struct {
+	follow bool
+	defers []ev
+}
+
+func (w *walker) pushBody(follow bool) { w.bodies = append(w.bodies, &body{follow: follow}) }
+
+func (w *walker) popBody() {
+	b := w.bodies[len(w.bodies)-1]
+	for i := len(b.defers) - 1; i >= 0; i-- {
+		w.out = append(w.out, b.defers[i])
+	}
+	w.bodies = w.bodies[:len(w.bodies)-1]
+}
+
+func (w *walker) followed() *body {
+	if n := len(w.bodies); n > 0 && w.bodies[n-1].follow {
+		return w.bodies[n-1]
+	}
+	return nil
 }
 
 type pbind struct {
@@ -52,11 +72,15 @@ type walker struct {
 	stack     []*types.Func
 	litStack  []*ast.FuncLit
 	sameDepth int
-	noAddr    map[ast.Expr]bool      // `&path` arguments bound to a followed callee's parameter: not an escaping address
-	roles     map[*types.Func]string // resolved unexported/exported role functions -> role name
-	inlAll    bool                   // role resolution: follow every unexported callee one level, nothing is a role yet
-	callees   map[*types.Func]bool   // resolution: unexported same-package callees seen in the top frame
-	captured  map[string]bool
+	// bodies being walked, innermost last. A body that is FOLLOWED (unexported callee, called literal) replays its
+	// deferred Unlock/RUnlock/Done when it ends; in a body walked where it stands (the spec's function itself, an
+	// escaping or deferred literal) they are recorded as deferUnlock/… events.
+	bodies   []*body
+	noAddr   map[ast.Expr]bool      // `&path` arguments bound to a followed callee's parameter: not an escaping address
+	roles    map[*types.Func]string // resolved unexported/exported role functions -> role name
+	inlAll   bool                   // role resolution: follow every unexported callee one level, nothing is a role yet
+	callees  map[*types.Func]bool   // resolution: unexported same-package callees seen in the top frame
+	captured map[string]bool
 }
 
 func (w *walker) emit(kind, name string) { w.out = append(w.out, ev{kind, name}) }
@@ -243,10 +267,9 @@ func (w *walker) expr(x ast.Node) {
 }
 
 func (w *walker) lit(list []ast.Stmt) {
-	f := w.top()
-	f.lits++
+	w.pushBody(false)
 	w.block(list)
-	f.lits--
+	w.popBody()
 }
 
 // litCall walks the body of a function literal where it is CALLED (immediately invoked, or through the local it is
@@ -272,8 +295,9 @@ func (w *walker) litCall(fl *ast.FuncLit, args []ast.Expr, pre, post string) {
 			f.params[p] = v
 		}
 	}
+	start := len(w.out)
 	w.emit(pre, "")
-	f.lits++
+	w.pushBody(true)
 	list := fl.Body.List
 	for i, s := range list {
 		if r, ok := s.(*ast.ReturnStmt); ok && i == len(list)-1 {
@@ -284,9 +308,14 @@ func (w *walker) litCall(fl *ast.FuncLit, args []ast.Expr, pre, post string) {
 		}
 		w.stmt(s)
 	}
-	f.lits--
+	w.popBody()
 	w.emit(post, "")
 	w.litStack = w.litStack[:len(w.litStack)-1]
+	// `go func() { x.role() }()` is `go x.role()`
+	if pre == "goBegin" && len(w.out) == start+3 && w.out[start+1].kind == "call" {
+		role := w.out[start+1].name
+		w.out = append(w.out[:start], ev{"goCall", role})
+	}
 }
 
 func (w *walker) boundLit(o types.Object) *ast.FuncLit {
@@ -583,6 +612,7 @@ func (w *walker) inline(d *funcDecl, args []ast.Expr, pre, post string) {
 		w.emit(pre, "")
 	}
 	w.emit("open", "")
+	w.pushBody(true)
 	list := d.fd.Body.List
 	for i, s := range list {
 		if r, ok := s.(*ast.ReturnStmt); ok && i == len(list)-1 {
@@ -593,9 +623,7 @@ func (w *walker) inline(d *funcDecl, args []ast.Expr, pre, post string) {
 		}
 		w.stmt(s)
 	}
-	for i := len(f.defers) - 1; i >= 0; i-- {
-		w.out = append(w.out, f.defers[i])
-	}
+	w.popBody()
 	w.emit("close", "")
 	if post != "" {
 		w.emit(post, "")
@@ -713,20 +741,20 @@ func (w *walker) stmt(s ast.Stmt) {
 			w.emit("goCall", "?")
 		}
 	case *ast.DeferStmt:
-		f := w.top()
+		fb := w.followed()
 		if fl, ok := st.Call.Fun.(*ast.FuncLit); ok {
 			w.emit("deferBegin", "")
 			w.lit(fl.Body.List)
 			w.emit("deferEnd", "")
 		} else if sel, ok := st.Call.Fun.(*ast.SelectorExpr); ok && (sel.Sel.Name == "Unlock" || sel.Sel.Name == "RUnlock") && len(st.Call.Args) == 0 {
-			if f.inlined && f.lits == 0 {
-				f.defers = append(f.defers, ev{map[string]string{"Unlock": "unlock", "RUnlock": "runlock"}[sel.Sel.Name], w.key(sel.X)})
+			if fb != nil {
+				fb.defers = append(fb.defers, ev{map[string]string{"Unlock": "unlock", "RUnlock": "runlock"}[sel.Sel.Name], w.key(sel.X)})
 			} else {
 				w.emit(map[string]string{"Unlock": "deferUnlock", "RUnlock": "deferRUnlock"}[sel.Sel.Name], w.key(sel.X))
 			}
 		} else if sel, ok := st.Call.Fun.(*ast.SelectorExpr); ok && sel.Sel.Name == "Done" && isWaitGroup(w.typeOf(sel.X)) {
-			if f.inlined && f.lits == 0 {
-				f.defers = append(f.defers, ev{"wgDone", w.key(sel.X)})
+			if fb != nil {
+				fb.defers = append(fb.defers, ev{"wgDone", w.key(sel.X)})
 			} else {
 				w.emit("deferWgDone", w.key(sel.X))
 			}
@@ -856,7 +884,9 @@ func (w *walker) selRecv(x ast.Expr) {
 func (wd *world) walkFunc(sp *spec, d *funcDecl, roles map[*types.Func]string, inlAll bool) *walker {
 	w := &walker{wd: wd, sp: sp, roles: roles, inlAll: inlAll, callees: map[*types.Func]bool{}, captured: map[string]bool{}}
 	w.frames = []*frame{{d: d, facts: wd.facts(d)}}
+	w.pushBody(false)
 	w.block(d.fd.Body.List)
+	w.popBody()
 	return w
 }
 
